@@ -18,7 +18,27 @@ def by_name(ast, suffix):
 
 
 def short(f):
-    return re.sub(r"yorel::yomm2::(detail::)?", "", f["name"])[:110]
+    """readable function name for labels; a long name loses its own (trailing) template argument list rather than being cut inside
+    it (labels are normalised into obligation kinds: an unbalanced cut would drop the rest of the label from the kind)"""
+    s = re.sub(r"yorel::yomm2::(detail::)?", "", f["name"])
+    if len(s) <= 110:
+        return s
+    if s.endswith(">"):
+        depth = 0
+        for i in range(len(s) - 1, -1, -1):
+            if s[i] == ">":
+                depth += 1
+            elif s[i] == "<":
+                depth -= 1
+                if depth == 0:
+                    s = s[:i] + "<...>"
+                    break
+    if len(s) > 110:
+        cut = s[:110]
+        if cut.count("<") != cut.count(">"):
+            cut = cut[:cut.index("<")] + "<...>"
+        s = cut
+    return s
 
 
 # ---------------------------------------------------------------------------
@@ -3226,12 +3246,27 @@ def publish_range_rules(run, rule, ast):
             own = all(any(x.get("k") == "MemberExpr" and x.get("member") == "classes" and any(y.get("k") == "CXXThisExpr" for y in astq.walk(x)) for x in astq.walk(a)) for a in args)
             glob = [astq.refname(x) for a in args for x in astq.walk(a) if x.get("k") == "DeclRefExpr" and x["ref"].get("storage") == "global" and x["ref"].get("dk") == "Var"]
             ok = own and not glob
-            run.instance(rule, "%s: v-table pointers are published over the compiler's merged classes (all ids of a class, the pointer just installed)" % short(f), (f["file"], c["l"]), ok=ok)
+            if not ok and glob and all(g.endswith("::classes") for g in glob):
+                # over the registration records: equivalent once every record's own static v-table pointer has been installed
+                # (an unconditional loop over the records, before the publication) - each record then carries its id and a set pointer
+                prop = []
+                for lp in astq.walk(f["body"]):
+                    if lp.get("k") == "CXXForRangeStmt" and lp["l"] < c["l"] and any((astq.refname(x) or "").endswith("::classes") and x.get("k") == "DeclRefExpr" and x["ref"].get("storage") == "global" for x in astq.walk(lp["range"])):
+                        lv = lp["var"]["did"]
+                        for n in astq.walk(lp["body"]):
+                            if n.get("k") == "BinaryOperator" and n.get("op") == "=":
+                                l = astq.strip(n["c"][0])
+                                if l is not None and l.get("k") == "UnaryOperator" and l.get("op") == "*" and any(x.get("k") == "MemberExpr" and x.get("member") == "static_vptr" and _refs(x, lv) for x in astq.walk(l)):
+                                    if not [cd for cd in (_cdep_conds(f, n) or []) if cd[0] not in ("loop", "trace")]:
+                                        prop.append(n)
+                if prop:
+                    ok = True
+            run.instance(rule, "%s: v-table pointers are published over the compiler's merged classes, or over the records after every record's pointer was installed" % short(f), (f["file"], c["l"]), ok=ok)
             if not ok:
                 if not own and not glob:
                     run.broken.append("%s: the range handed to publish_vptrs is not recognised (`%s`)" % (short(f), astq.text(args[0])[:60]))
                 else:
-                    run.violation(rule, "compiler::install_gv|publish-range", "publish_vptrs ranges over `%s`: the registration records carry one id each and, for a class known under several ids, their own static v-table pointer that install_gv never set" % (
+                    run.violation(rule, "compiler::install_gv|publish-range", "publish_vptrs ranges over `%s` while the records' own static v-table pointers are not (all, unconditionally) installed before: the registration records carry one id each and, for a class known under several ids, a static v-table pointer of their own" % (
                         (glob[0] if glob else astq.text(args[0]))[:80]), (f["file"], c["l"]))
 
 
